@@ -185,7 +185,7 @@ pub fn outline(c: &mut Chooser, task: &ExternalTask) -> Vec<Entry> {
     entries
 }
 
-const DEFECTS: [&str; 10] = [
+const DEFECTS: [&str; 11] = [
     "none",
     "not-an-equivalence",
     "lhs-not-an-atom",
@@ -196,6 +196,7 @@ const DEFECTS: [&str; 10] = [
     "predicate-of-the-task",
     "predicate-defined-earlier",
     "rhs-predicate-not-yet-defined",
+    "predicate-of-the-task-after-renaming",
 ];
 
 /// a definition with exactly one defect (the rest of the outline stays valid)
@@ -308,7 +309,7 @@ impl Check for C13 {
         (
             gt::choices(170),
             gt::choices(80),
-            prop_oneof![2 => Just(0u8), 1 => 1u8..10],
+            prop_oneof![2 => Just(0u8), 1 => 1u8..11],
             gt::choices(40),
         )
             .prop_map(|(task, outline, defect, interp)| Case { task, outline, defect, interp })
@@ -329,7 +330,28 @@ impl Check for C13 {
             if defect == "predicate-defined-earlier" && earlier.is_empty() {
                 return Outcome::skip("no earlier definition to clash with");
             }
-            let bad = defective_definition(&mut oc, &task, defect, &earlier);
+            let bad = if defect == "predicate-of-the-task-after-renaming" {
+                // the name a clashing private predicate of the program received in the problems
+                let base_flags = Flags { sequential: false, ..flags.clone() };
+                let Ok((base, _)) = ops::external_problems(&task, &ops::empty_outline(), &base_flags, false) else {
+                    return Outcome::skip("task without outline refused");
+                };
+                let names = crate::ext_ref::discover_right_names(&task, &base);
+                let Some((pred, emitted)) = names.iter().find(|(p, n)| p.0 != **n) else {
+                    return Outcome::skip("no private predicate is renamed in this task");
+                };
+                let args: Vec<fol::GeneralTerm> = (0..pred.1).map(|_| gv("X")).collect();
+                let inp = task.names.inputs[0].0.clone();
+                let body = g::bin(
+                    fol::BinaryConnective::Equivalence,
+                    atom(emitted, args),
+                    if pred.1 == 0 { g::not(atom(&inp, vec![num(0)])) } else { atom(&inp, vec![gv("X")]) },
+                );
+                let f = if pred.1 == 0 { body } else { g::quant(true, vec![v("X", fol::Sort::General)], body) };
+                gt::annotated(fol::Role::Definition, fol::Direction::Universal, "baddef", f)
+            } else {
+                defective_definition(&mut oc, &task, defect, &earlier)
+            };
             // after all valid entries, so that "defined earlier" is meaningful
             entries.push(Entry { formula: bad, kind: "definition", defined: None });
         }
